@@ -373,6 +373,12 @@ fn directed(ctx: &Ctx) -> Vec<Case> {
             let spec = inconsistent(s1, s2, t0);
             v.push(Case { set, ops: vec![Op::SkFromBytes(SkBytes::Spec(spec)), sign(0), Op::SkIntoBytes(0), Op::GetPublicKey(0), Op::PkIntoBytes(0), sign(0), Op::Verify { pk: 0, sig: SigSrc::Pool(0), msg: BytesSpec { len: 33, constant: None, seed: 1 }, ctx: BytesSpec { len: 3, constant: Some(1), seed: 0 }, mode: 0 }] });
         }
+        // keys whose t0 makes (practically) every candidate fail: signing must end with an error, not a panic
+        for (s2p, t0p) in [(Pattern::AllZero, Pattern::RandomExtreme(1)), (Pattern::RandomExtreme(2), Pattern::RandomExtreme(3)), (Pattern::Random(4), Pattern::RandomExtreme(5))] {
+            let spec = inconsistent(Pattern::Random(6), s2p, t0p);
+            v.push(Case { set, ops: vec![Op::SkFromBytes(SkBytes::Spec(spec.clone())), sign(0), Op::SkIntoBytes(0)] });
+            v.push(Case { set, ops: vec![Op::SkFromBytes(SkBytes::Spec(spec)), Op::InternalSign { sk: 0, msg: BytesSpec { len: 9, constant: None, seed: 2 }, ctx: BytesSpec::empty(), rnd: Seed32::Ones }] });
+        }
         for b in [SkBytes::Zero, SkBytes::Ones, SkBytes::Uniform(ctx.seed)] {
             v.push(Case { set, ops: vec![Op::SkFromBytes(b), sign(0), Op::SkIntoBytes(0), Op::GetPublicKey(0), Op::PkIntoBytes(0)] });
         }
